@@ -157,6 +157,16 @@ def factors(d):
     return [d], []
 
 
+
+def create_box_rule(cx):
+    """shared with C13 (sections of generated boxes are compared with their analytic outline): width, height, depth reach the table generator in this order"""
+    b = cx.fn('geom3::mesh::Mesh::create_box')
+    if b:
+        G = '(call *mesh::box_geom (param width) (param height) (param depth))'
+        cx.expect('EXPR', 'Mesh::create_box', cx.retval(b), f'(call *Mesh::new (field 0 {G}) (field 1 {G}) (param is_solid))',
+                  'create_box(width, height, depth) builds the mesh from box_geom(width, height, depth) - x extent = width, y extent = height, z extent = depth (box_geom:lattice) - '
+                  'vertices first, triangles second, with the requested solidity', where=b.file)
+
 def run(cx):
     # ---------------------------------------------------------------- TERM
     for fn, nloops in ((f'{ED}::boundary_loops', 1), (f'{PA}::take_one_boundary', 1), (f'{PA}::compute_boundary_points', 2),
@@ -293,6 +303,7 @@ def run(cx):
     chain_rules.run(cx)
 
     # ---------------------------------------------------------------- TABLE box
+    create_box_rule(cx)
     b = cx.fn('geom3::mesh::box_geom')
     if b:
         r = cx.retval(b)
